@@ -105,8 +105,23 @@ def callbacks_impl(gen_src, real=None):
     return "\n".join(out) + "\n"
 
 
-def grammar_specs(gen_src):
+def grammar_specs(gen_src, grammar_text=None, report=None):
     skips = static_skip_names(gen_src)
+    if grammar_text:
+        # [C16] what counts as a skipped token is what the GRAMMAR says -- the tokens of its `skip`
+        # declarations plus the lexer's Error token --, not what the emitted Parser::is_skipped lists:
+        # the postcondition of is_skipped (`r == is_static_skip(token)`) is then a real obligation
+        from kani_leaves import declared_skips, declared_tokens
+        declared = ["Error"] + [n for n in declared_skips(grammar_text) if n != "Error"]
+        if not set(declared[1:]) <= declared_tokens(grammar_text):
+            # my reader of the grammar text is unsure (a skip name that is no declared token): do not
+            # turn that into an alarm -- fall back to the emitted list and say so in the evidence
+            if report is not None:
+                report["skip_reader_unsure"] = declared
+        else:
+            if report is not None and set(declared) != set(skips):
+                report["skip_set_differs_from_grammar"] = {"grammar": declared, "emitted": skips}
+            skips = declared
     eois = eoi_names(gen_src)
     s = "pub open spec fn is_static_skip(t: Token) -> bool { %s }\n" % " || ".join("t == Token::%s" % n for n in skips)
     s += "pub open spec fn eoi_ok(t: Token) -> bool { %s }\n" % " || ".join("t == Token::%s" % n for n in eois)
@@ -173,7 +188,7 @@ def build(gen_src, sidecars, annotate=None, report=None, user_side=None, shard=N
         report = {}
     text, rep = extract(gen_src)
     report["extraction"] = rep
-    gspec, skips, eois = grammar_specs(gen_src)
+    gspec, skips, eois = grammar_specs(gen_src, report.get("grammar_text"), report)
     report["static_skip"] = skips
     report["eoi"] = eois
     import traitspec
@@ -190,6 +205,7 @@ def build(gen_src, sidecars, annotate=None, report=None, user_side=None, shard=N
     text = ed.apply()
     if user_side is None:
         toks = token_names(gen_src)
+        toks += [n for n in skips if n not in toks]
         token_enum = "#[derive(PartialEq, Eq, Copy, Clone, Structural)]\npub enum Token { %s }\n" % ", ".join(toks)
         token_enum += "pub struct Diagnostic { pub _p: u8 }\n"
         cbs = callbacks_impl(gen_src, real_preds)
